@@ -32,6 +32,9 @@ class LinePass(AbstractPass):
         return True
 
     def new(self, test_case, check_sanity=None):
+        if self.arg == 'chmod':
+            # like LinesPass.__format: the test case is rewritten through a private temporary file, which resets its mode
+            os.chmod(test_case, 0o600)
         return 0
 
     def advance(self, test_case, state):
